@@ -294,6 +294,12 @@ var Ops = []Op{
 		out := fmt.Sprint(influxql.Eval(cond, pt), influxql.EvalBool(cond, pt))
 		ev := influxql.ValuerEval{Valuer: influxql.MultiValuer(influxql.MapValuer(pt), &influxql.NowValuer{Now: fixedNow}), IntegerFloatDivision: true}
 		out += fmt.Sprint(ev.Eval(cond), ev.EvalBool(cond))
+		// and with every reference bound to a string (regex tests then run)
+		strs := map[string]interface{}{}
+		for _, n := range refNames(st) {
+			strs[n] = "a"
+		}
+		out += fmt.Sprint(influxql.EvalBool(cond, strs))
 		if sel != nil {
 			for _, f := range sel.Fields {
 				out += fmt.Sprint(ev.Eval(f.Expr))
